@@ -110,6 +110,7 @@ func (ctx *Context) Parse(value string) error {
 	if err != nil {
 		// 错误消息语言绑定在错误对象上，而不是写全局变量(否则并发的VM会互相影响)
 		bindParseErrorLanguage(err, ctx.Config.ParseErrorLanguage)
+		bindRuleErrorLanguage(err, ctx.Config.ParseErrorLanguage)
 		ctx.Error = err
 		return err
 	}
